@@ -1249,6 +1249,85 @@ fn k_mmap_special(sc: &J, r: &R) {
     }
 }
 
+// After zeroize() no byte of the object may still hold key-, chaining-value- or input-derived data: the object
+// is driven through `updates` (sizes), every secret 32-byte value that can have lived in it is recomputed through
+// the public API (key / context key, the chaining value of every aligned power-of-two block of complete chunks,
+// the last buffered bytes), zeroize() is called, and the raw object bytes are searched for those values.
+fn k_zeroize_probe(sc: &J, r: &R) {
+    #[cfg(feature = "zeroize")]
+    {
+        use zeroize::Zeroize;
+        let m = parse_mode(sc);
+        let data = gen_input(sc.get("input"));
+        let mut h = new_hasher(&m);
+        let mut pos = 0usize;
+        for u in sc.arr("updates") {
+            let n = (u.as_i128().unwrap_or(0) as usize).min(data.len() - pos);
+            h.update(&data[pos..pos + n]);
+            pos += n;
+        }
+        if sc.bool("reset_after") {
+            h.reset();
+        }
+        let mut secrets: Vec<(String, Vec<u8>)> = Vec::new();
+        match &m {
+            M::Keyed(k) | M::Ck(k) => secrets.push(("key".into(), k.to_vec())),
+            M::Derive(c) => secrets.push(("context key".into(), hazmat::hash_derive_key_context(c).to_vec())),
+            M::Hash => {}
+        }
+        let chunks = pos / 1024;
+        let mut s = 1usize;
+        while s <= chunks {
+            let mut o = 0usize;
+            while o + s <= chunks {
+                let mut sub = new_hasher(&m);
+                sub.set_input_offset((o * 1024) as u64);
+                sub.update(&data[o * 1024..(o + s) * 1024]);
+                secrets.push((format!("cv of chunks {}..{}", o, o + s), sub.finalize_non_root().to_vec()));
+                o += s;
+            }
+            s *= 2;
+        }
+        let tail = &data[..pos];
+        if tail.len() % 64 >= 16 || (tail.len() >= 64 && tail.len() % 64 == 0) {
+            let start = if tail.len() % 64 == 0 { tail.len() - 64 } else { tail.len() - tail.len() % 64 };
+            secrets.push(("buffered input bytes".into(), tail[start..start + 16].to_vec()));
+        }
+        // an OutputReader of the same state, and the hash
+        let mut rd = h.finalize_xof();
+        let mut first = [0u8; 64];
+        rd.fill(&mut first);
+        let mut hash = h.finalize();
+        secrets.push(("hash".into(), hash.as_bytes().to_vec()));
+        h.zeroize();
+        rd.zeroize();
+        hash.zeroize();
+        fn raw<T>(x: &T) -> &[u8] {
+            unsafe { std::slice::from_raw_parts(x as *const T as *const u8, std::mem::size_of::<T>()) }
+        }
+        let mut residue = String::new();
+        for (what, obj) in [("Hasher", raw(&h)), ("OutputReader", raw(&rd)), ("Hash", raw(&hash))] {
+            for (name, pat) in &secrets {
+                if pat.iter().all(|b| *b == 0) {
+                    continue;
+                }
+                if obj.windows(pat.len()).any(|w| w == &pat[..]) {
+                    residue = format!("{}: {}", what, name);
+                }
+            }
+        }
+        set(r, "residue", (!residue.is_empty()).to_string());
+        set(r, "residue_what", esc(&residue));
+        set(r, "skipped", "false".into());
+    }
+    #[cfg(not(feature = "zeroize"))]
+    {
+        let _ = sc;
+        set(r, "residue", "false".into());
+        set(r, "skipped", "true".into());
+    }
+}
+
 fn k_info(r: &R) {
     set(r, "hasher_debug", esc(&format!("{:?}", Hasher::new())));
     set(r, "detect", esc(&format!("{:?}", Platform::detect())));
@@ -1338,6 +1417,7 @@ fn main() {
             "platform" => k_platform(sc, &rec),
             "info" => k_info(&rec),
             "mmap_special" => k_mmap_special(sc, &rec),
+            "zeroize_probe" => k_zeroize_probe(sc, &rec),
             k => panic!("driver: unknown kind {:?}", k),
         }));
         CUR_START_MS.store(0, Ordering::SeqCst);
